@@ -296,6 +296,8 @@ type vfMemStore struct {
 	// EmptyMiss: an unknown key is answered with an empty, non-nil Session (what a store that decodes a missing row
 	// into make([]byte, 0) fields returns) instead of the zero Session
 	EmptyMiss bool
+	// Alias: Get hands out the stored slices themselves (a plain in-memory map does), not copies
+	Alias bool
 }
 
 func vfNewMemStore(name string) *vfMemStore { return &vfMemStore{m: map[string]Session{}, name: name} }
@@ -316,6 +318,10 @@ func (s *vfMemStore) Get(key []byte) (Session, error) {
 	s.Log = append(s.Log, fmt.Sprintf("get %x -> id=%x", key, v.ID))
 	if !hit && s.EmptyMiss {
 		return Session{ID: []byte{}, Secret: []byte{}}, nil
+	}
+
+	if s.Alias {
+		return v, nil
 	}
 
 	return Session{ID: append([]byte(nil), v.ID...), Secret: append([]byte(nil), v.Secret...)}, nil
